@@ -235,6 +235,27 @@ func (lb *litBuilder) lit(name string, t types.Type, depth int) (string, bool) {
 		}
 		return fmt.Sprintf("%s{%s}", lb.tn(t), body), true
 	case *types.Interface:
+		if lb.tn(t) == "io.Reader" {
+			// the bytes the reader delivers, in the order of the ReadFull calls on the failing path
+			var bs []string
+			for j := 0; ; j++ {
+				n, ok := lb.idx(fmt.Sprintf("$stream[%d].len", j))
+				if !ok {
+					break
+				}
+				if n < 0 || n > 1<<20 {
+					n = 8
+				}
+				for i := int64(0); i < n; i++ {
+					v, ok := lb.num(fmt.Sprintf("$stream[%d][%d]", j, i), types.Typ[types.Uint8])
+					if !ok {
+						v = big.NewInt(0)
+					}
+					bs = append(bs, fmt.Sprint(new(big.Int).And(v, big.NewInt(255))))
+				}
+			}
+			return fmt.Sprintf("verifBytesReader([]byte{%s})", strings.Join(bs, ", ")), true
+		}
 		tag, ok := lb.num(name+".tag", types.Typ[types.Int64])
 		if ok && tag.Sign() == 0 {
 			return "nil", true
@@ -268,6 +289,18 @@ func (lb *litBuilder) structBody(prefix string, stt *types.Struct, depth int) (s
 // tryReplay attempts to confirm a failed obligation on the real code.
 func tryReplay(P *Program, repo string, o *Obligation, scratch string) (bool, map[string]interface{}) {
 	info := map[string]interface{}{}
+	if o != nil && !strings.Contains(o.Name, "#inv.") {
+		if fc := P.Contracts.Funcs[o.Func]; fc != nil && hasInvariantLoops(fc) {
+			// the model may describe a loop-head state: search for an entry-state model by bounded unrolling
+			if r := refuteObligation(P, o, scratch); r != nil {
+				info["input_search"] = "bounded refutation run (loops unrolled up to 12 iterations) found an entry input"
+				o = r
+			} else {
+				info["status"] = "failing state is inside a loop cut and bounded unrolling found no entry input"
+				return false, info
+			}
+		}
+	}
 	if o == nil || o.Status != "sat" || len(o.Model) == 0 {
 		info["status"] = "no model (solver answered " + fmt.Sprint(o.Status) + ")"
 		return false, info
@@ -301,7 +334,7 @@ func tryReplay(P *Program, repo string, o *Obligation, scratch string) (bool, ma
 	}
 	var sb strings.Builder
 	sb.WriteString("//go:build verif\n\npackage " + P.Pkg.Types.Name() + "\n\nimport (\n\t\"fmt\"\n\t\"testing\"\n")
-	sb.WriteString(")\n\nfunc TestVerifReplay(t *testing.T) {\n")
+	sb.WriteString("\t\"io\"\n\t\"runtime\"\n)\n\ntype verifReader struct{ b []byte }\n\nfunc (r *verifReader) Read(p []byte) (int, error) {\n\tif len(r.b) == 0 {\n\t\treturn 0, io.EOF\n\t}\n\tn := copy(p, r.b)\n\tr.b = r.b[n:]\n\treturn n, nil\n}\n\nfunc verifBytesReader(b []byte) io.Reader { return &verifReader{b} }\n\nfunc TestVerifReplay(t *testing.T) {\n")
 	sb.WriteString("\tdefer func() {\n\t\tif r := recover(); r != nil {\n\t\t\tfmt.Printf(\"VERIF-REPLAY: PANIC %v\\n\", r)\n\t\t}\n\t}()\n")
 	for _, p := range lb.pre {
 		sb.WriteString("\t" + p + "\n")
@@ -327,6 +360,7 @@ func tryReplay(P *Program, repo string, o *Obligation, scratch string) (bool, ma
 		}
 	}
 	// the call
+	sb.WriteString("\tvar ms0, ms1 runtime.MemStats\n\truntime.ReadMemStats(&ms0)\n\tdefer func() {\n\t\truntime.ReadMemStats(&ms1)\n\t\tfmt.Printf(\"VERIF-REPLAY: ALLOC %d\\n\", ms1.TotalAlloc-ms0.TotalAlloc)\n\t}()\n")
 	nres := fn.Signature.Results().Len()
 	var resNames []string
 	for i := 0; i < nres; i++ {
@@ -369,6 +403,7 @@ func tryReplay(P *Program, repo string, o *Obligation, scratch string) (bool, ma
 	sb.WriteString("}\n")
 	testSrc := sb.String()
 	info["test_source"] = testSrc
+	info["model_used"] = o.Model
 	// run it
 	ghost := filepath.Join(scratch, "zz_ghost.go")
 	test := filepath.Join(scratch, "zz_replay_test.go")
@@ -380,7 +415,7 @@ func tryReplay(P *Program, repo string, o *Obligation, scratch string) (bool, ma
 		filepath.Join(repo, "zz_verif_replay_test.go"): test,
 	}})
 	os.WriteFile(ov, ovj, 0o644)
-	cmd := exec.Command("go", "test", "-tags", "verif", "-overlay", ov, "-v", "-vet=off", "-count=1", "-timeout", "60s", "-run", "^TestVerifReplay$", ".")
+	cmd := exec.Command("sh", "-c", "ulimit -v 12000000; exec go test -tags verif -overlay "+ov+" -v -vet=off -count=1 -timeout 60s -run '^TestVerifReplay$' .")
 	cmd.Dir = repo
 	cmd.Env = append(os.Environ(), "GOFLAGS=-mod=mod", "GOPROXY=off", "GOSUMDB=off", "GOTOOLCHAIN=local")
 	done := make(chan struct{})
@@ -410,6 +445,21 @@ func tryReplay(P *Program, repo string, o *Obligation, scratch string) (bool, ma
 		} else {
 			info["status"] = "the real function did not panic on the model's input"
 		}
+	case o.Kind == "post" && strings.Contains(o.Desc, "maxAlloc()"):
+		var n int64
+		if i := strings.Index(out, "VERIF-REPLAY: ALLOC "); i >= 0 {
+			fmt.Sscanf(out[i+len("VERIF-REPLAY: ALLOC "):], "%d", &n)
+		}
+		info["allocated_bytes"] = n
+		if strings.Contains(out, "out of memory") || strings.Contains(out, "cannot allocate memory") {
+			confirmed = true
+			info["status"] = "confirmed: the real function tried to allocate more than the replay's memory limit for one packet"
+		} else if n > 268435455+1<<20 {
+			confirmed = true
+			info["status"] = fmt.Sprintf("confirmed: the real function allocated %d bytes for one packet on the model's input", n)
+		} else {
+			info["status"] = "allocation on the model's input stayed within the bound"
+		}
 	case o.Kind == "post":
 		if strings.Contains(out, "VERIF-REPLAY: CLAUSE false") {
 			confirmed = true
@@ -427,3 +477,37 @@ func tryReplay(P *Program, repo string, o *Obligation, scratch string) (bool, ma
 }
 
 var _ = ssa.NewProgram
+
+func hasInvariantLoops(fc *FuncContract) bool {
+	for _, l := range fc.Loops {
+		if l.Unroll == 0 {
+			return true
+		}
+	}
+	return false
+}
+
+// refuteObligation re-runs the function with loops unrolled and looks for a satisfiable
+// instance of the same obligation.
+func refuteObligation(P *Program, o *Obligation, scratch string) *Obligation {
+	rep := verifyFuncMode(P, o.Func, true)
+	var cands []*Obligation
+	for _, x := range rep.Obls {
+		if x.Name == o.Name && x.Status == "" && !x.Cover {
+			cands = append(cands, x)
+		}
+	}
+	if len(cands) > 200 {
+		cands = cands[:200]
+	}
+	solveAll(cands, scratch, 5, false, 0, 16)
+	var best *Obligation
+	for _, x := range cands {
+		if x.Status == "sat" && len(x.Model) > 0 {
+			if best == nil || len(x.PC) < len(best.PC) {
+				best = x
+			}
+		}
+	}
+	return best
+}
